@@ -17,8 +17,12 @@
 //!                          -> "L=<lazy lines>|O=<owned lines>|B=<record_bufs records>"
 //!   gffdir key kind payload    directive through the real writer -> "W=<hex line>|<lines read back>"
 //!   gffcom <hex text>      comment through Writer::write_line -> "W=<hex line>|<lines read back>"
+//!   bedt   n ... typed other fields (I:<i64> U:<u64> F:<f64 bits>:<hex Display text> C:<byte> S:<hex>)
+//!                          -> "W=<hex line>|R=<view>/<owned>" (NV.Text.BedTyped + BedRec)
+//!   gtfline <hex text>     arbitrary GTF text: read_line (one reused Line), Line::kind, as_comment /
+//!                          as_record, line_bufs(), record_bufs() -> "L=..|O=..|B=.."
+//!   gtfcom <hex text>      comment through gtf Writer::write_line -> "W=<hex line>|L=..|O=.."
 //! Implementation-only oracles:
-//!   bedt   n ... typed other fields (Int64/UInt64/Float64/Character)
 //!   gfffile rec rec ... / gtffile rec rec ...   multi-line files (blank lines, comments, directives
 //!                                in between) read with one reused Line and with record_bufs()
 //!
@@ -844,7 +848,13 @@ fn bed_of_case(c: &Case) -> BedRec {
                     "S" => Other::S(unhex(v)),
                     "I" => Other::I(v.parse().unwrap()),
                     "U" => Other::U(v.parse().unwrap()),
-                    "F" => Other::F(v.parse().unwrap()),
+                    "F" => {
+                        // F:<f64 bits>:<hex of its Display text> (the model's float oracle)
+                        let (bits, text) = v.split_once(':').expect("float text");
+                        let bits: u64 = bits.parse().unwrap();
+                        assert_eq!(f64::from_bits(bits).to_string().into_bytes(), unhex(text), "f64 text");
+                        Other::F(bits)
+                    }
                     "C" => Other::C(v.parse().unwrap()),
                     _ => panic!("other kind"),
                 }
@@ -881,7 +891,7 @@ fn bed_args(r: &BedRec) -> Vec<String> {
                     Other::S(s) => format!("S:{}", hex(s)),
                     Other::I(n) => format!("I:{n}"),
                     Other::U(n) => format!("U:{n}"),
-                    Other::F(n) => format!("F:{n}"),
+                    Other::F(n) => format!("F:{n}:{}", hex(f64::from_bits(*n).to_string().as_bytes())),
                     Other::C(n) => format!("C:{n}"),
                 })
                 .collect::<Vec<_>>()
@@ -1237,12 +1247,12 @@ fn run_bed(c: &Case, modelled: bool) -> Obs {
     let nontrivial = r.n > 3 || !r.others.is_empty();
     let r2 = r.clone();
     let out = match guarded(AssertUnwindSafe(move || bed_io(std::slice::from_ref(&r2)))) {
-        Outcome::Panicked(m) => return Obs::fail(if modelled { "W=Panic" } else { "-" }, "bed-panic", m),
+        Outcome::Panicked(m) => return Obs::fail("W=Panic", "bed-panic", m),
         Outcome::Done(x) => x,
     };
     let (bytes, reused, fresh) = match out {
         Err(e) => {
-            let obs = if modelled { format!("W=Err:{}", errkind(&e)) } else { "-".into() };
+            let obs = format!("W=Err:{}", errkind(&e));
             return if !bed_writer_accepts(&r) && e.kind() == io::ErrorKind::InvalidInput {
                 Obs { obs, verdict: "skip".into(), nontrivial: false }
             } else {
@@ -1254,7 +1264,15 @@ fn run_bed(c: &Case, modelled: bool) -> Obs {
     let count = fresh.len();
     let (lazy, owned) = fresh.first().cloned().unwrap_or(("NoLine".into(), "NoLine".into()));
     let line = &bytes[..bytes.len() - 1];
-    let obs = if modelled { format!("W={}|R={}", hex(line), lazy) } else { "-".into() };
+    let obs = if modelled {
+        format!("W={}|R={}", hex(line), lazy)
+    } else {
+        // typed other fields (kind bedt): NV.Text.BedTyped.bed_write_typed, then the record-level
+        // reader model: per-accessor view and owned conversion of every line read back
+        let es = c18_bedrec::read_text(r.n, &bytes, true, 3, false);
+        let shown: Vec<String> = es.iter().filter(|e| e.res != "0").map(|e| if e.is_record() { format!("{}/{}", e.view, e.owned) } else { e.res.clone() }).collect();
+        format!("W={}|R={}", hex(line), shown.join(";"))
+    };
     let o = Obs { obs, verdict: "ok".into(), nontrivial };
     if !bed_writer_accepts(&r) {
         return o.with_verdict(Err(("bed-writer-accepts-invalid-field".into(), hex(line))));
@@ -1862,6 +1880,27 @@ fn generate(rng: &mut Rng, tier: &str, w: &mut CaseWriter) {
             w.push("gffline", vec![hex(&t)]);
         }
     }
+    // arbitrary GTF text through read_line / Line::kind / line_bufs / record_bufs; comments
+    {
+        let fixed: &[&[u8]] = &[
+            b"", b"\n", b"#\n", b"##format: gtf\n", b"# c \r\n", b"\r\n", b" \n",
+            b"chr1\t.\tgene\t1\t2\t.\t+\t.\tgene_id \"g\";\n#c\n\nchr2\t.\tgene\t3\t4\t.\t-\t.\t\r\n",
+            b"chr1\t.\tgene\t1\t2\t.\t+\t.\ta \"1\n", b"#chr\t.\tgene\t1\t2\t.\t+\t.\t\n", b"chr1\t.\tgene\n", b"chr1\t.\tgene\t1\t2\t.\t+\t.\ta \"1\"; a \"2\";",
+        ];
+        for t in fixed {
+            w.push("gtfline", vec![hex(t)]);
+        }
+        for _ in 0..(50 * scale) {
+            let t = c18_bedrec::gen_gtfline(rng);
+            w.push("gtfline", vec![hex(&t)]);
+        }
+        for t in [&b""[..], b"note", b"#format: gtf", b" a\tb ", b"x\r", b"\r", b"a\nb"] {
+            w.push("gtfcom", vec![hex(t)]);
+        }
+        for _ in 0..(8 * scale) {
+            w.push("gtfcom", vec![hex(&gen_plain(rng, 0, 10, PLAIN))]);
+        }
+    }
     // arbitrary BED text through the reader (comments, CR, short lines, missing final LF, ...)
     for n in 3..=6usize {
         let fixed: &[&[u8]] = &[
@@ -1943,6 +1982,8 @@ fn run(c: &Case) -> Obs {
         "bedraw" => c18_bedrec::run_bedraw(c),
         "gffline" => c18_bedrec::run_gffline(c),
         "gffcom" => c18_bedrec::run_gffcom(c),
+        "gtfline" => c18_bedrec::run_gtfline(c),
+        "gtfcom" => c18_bedrec::run_gtfcom(c),
         "gfffile" => run_gfffile(c),
         "gtffile" => run_gtffile(c),
         k => panic!("unknown kind {k}"),
